@@ -6,6 +6,13 @@
       E  … tag              → `<V>`             one value tag (expressions, validation)
       Q  … tag              → `<V>`             one prefix tag
     the kind may carry harness flags after a `+` (`V3+p`, `E+d`, …), ignored here
+
+    <kind> <type> <cfg> <evals> <verdicts> <set> <gate> <tag>…      two creations of the same holder
+      R3 / RE / RQ  as V3 / E / Q; the holder is created under cfg — that creation fails —, then the keys of
+      `set` (a map value) are overwritten and the holder is created again: `Ioc.Value.createTwice`
+      gate  n | a0 | a1 (an extra property `G int value:"${kgate}"` first / last) | w (the creation fails after
+            the properties were populated)
+      → `<first: ok|err> <field>…`  (when the second creation fails and there are several tags: one holder per tag)
     type     S I J U D B A | P<ty> | L<ty> | M<ty> | T(hexname:ty:hexvalidate,…)
     value    z | s<hex> | i<dec> | F<dec> | f<decimal> | b0 | b1 | l(v,…) | m(hexkey=v,…)
     evals    e(hexexpr=value|!,…)       the expression engine as a table (anything else: `unmodelled`)
@@ -172,9 +179,99 @@ def runOne (cfg : Cfg) (ev : Bytes → Except Err Val) (vt : List (Bytes × Bool
   let b := showRes (runProperty goJson ev (mkValidate vt false) cfg isValue tag ty)
   if a = b then a else "noverdict"
 
+/-! ### two creations of the same holder (R3, RE, RQ) -/
+
+def overlay (cfg1 : Cfg) (set : Val) : Cfg :=
+  match set with
+  | .map m => fun k => match alookup k m with
+    | some v => v
+    | none => cfg1 k
+  | _ => cfg1
+
+def showErr : Option Err → String
+  | none => "ok"
+  | some .panic => "panic"
+  | some .unmodelled => "unmodelled"
+  | some _ => "err"
+
+def gateTag : Bytes := strBytes "${kgate}"
+
+/-- the holder of a history: the tagged properties (value?, tag) of type `ty`, the gate property where the gate is one -/
+def mkHolder (gate : String) (ty : FieldTy) (tags : List (Bool × Bytes)) : Option (List HProp) :=
+  let g := if gate = "a0" || gate = "a1" then freshProp true gateTag .int else none
+  match tags.mapM (fun t => freshProp t.1 t.2 ty) with
+  | none => none
+  | some ps =>
+    match gate, g with
+    | "a0", some gp => some (gp :: ps)
+    | "a1", some gp => some (ps ++ [gp])
+    | _, _ => some ps
+
+/-- `<first> <field>…` of one history with the given validator default; `none` = a tag the grammar panics on -/
+def runTwice (cfg1 cfg2 : Cfg) (ev : Bytes → Except Err Val) (vt : List (Bytes × Bool)) (dflt : Bool)
+    (gate : String) (ty : FieldTy) (tags : List (Bool × Bytes)) : String × Option (List String) :=
+  match mkHolder gate ty tags with
+  | none => ("panic", some (tags.map fun _ => "panic"))
+  | some ps =>
+    let r := createTwice goJson ev (mkValidate vt dflt) cfg1 cfg2 (gate = "w") ps
+    let first := if r.failed then (match r.first with | none => "err" | e => showErr e) else "ok"
+    match r.second with
+    | some _ => (first, none)
+    | none =>
+      let own := if gate = "a0" then r.props.drop 1 else r.props.take tags.length
+      (first, some (own.map fun p => render (p.st.bound.getD (zero p.ty))))
+
+def historyWith (cfg1 cfg2 : Cfg) (ev : Bytes → Except Err Val) (vt : List (Bytes × Bool)) (dflt : Bool)
+    (gate : String) (ty : FieldTy) (tags : List (Bool × Bytes)) : String :=
+  match runTwice cfg1 cfg2 ev vt dflt gate ty tags with
+  | (first, some fields) => first ++ " " ++ joinWith " " fields
+  | (first, none) =>
+    -- the second creation failed: one history per tag (as the harness does)
+    let each := tags.map fun t =>
+      match runTwice cfg1 cfg2 ev vt dflt gate ty [t] with
+      | (_, some [f]) => f
+      | (_, some _) => "bad"
+      | (_, none) =>
+        match mkHolder gate ty [t] with
+        | none => "panic"
+        | some ps => showErr (createTwice goJson ev (mkValidate vt dflt) cfg1 cfg2 (gate = "w") ps).second
+    first ++ " " ++ joinWith " " each
+
+def history (cfg1 cfg2 : Cfg) (ev : Bytes → Except Err Val) (vt : List (Bytes × Bool))
+    (gate : String) (ty : FieldTy) (tags : List (Bool × Bytes)) : String :=
+  let a := historyWith cfg1 cfg2 ev vt true gate ty tags
+  let b := historyWith cfg1 cfg2 ev vt false gate ty tags
+  if a = b then a else "noverdict"
+
+def handleR (kind : String) (ty : FieldTy) (cfgV : Val) (evs : List (Bytes × Except Err Val)) (vds : List (Bytes × Bool))
+    (rest : List String) : String :=
+  match rest with
+  | setS :: gate :: tags =>
+    match pVal setS.toList, tags.mapM fromHex with
+    | some (setV, []), some tagBs =>
+      if !(gate = "n" || gate = "a0" || gate = "a1" || gate = "w") then "bad-line" else
+      let cfg1 := mkCfg cfgV
+      let cfg2 := overlay cfg1 setV
+      let ev := mkEval evs
+      match kind, tagBs with
+      | "R3", [tv, tp, tx] =>
+        (match Tag.propShorthand? tp with
+          | none => "panic"
+          | some t => history cfg1 cfg2 ev vds gate ty [(true, tv), (true, t), (false, tx)])
+      | "RE", [tv] => history cfg1 cfg2 ev vds gate ty [(true, tv)]
+      | "RQ", [tx] => history cfg1 cfg2 ev vds gate ty [(false, tx)]
+      | _, _ => "bad-line"
+    | _, _ => "bad-line"
+  | _ => "bad-line"
+
 def handle (line : String) : String :=
   match line.splitOn " " with
   | kind :: tyS :: cfgS :: evS :: vdS :: tags =>
+    if kind = "R3" || kind = "RE" || kind = "RQ" then
+      match pTy tyS.toList, pVal cfgS.toList, pEvals evS, pVerdicts vdS with
+      | some (ty, []), some (cfgV, []), some evs, some vds => handleR kind ty cfgV evs vds tags
+      | _, _, _, _ => "bad-line"
+    else
     match pTy tyS.toList, pVal cfgS.toList, pEvals evS, pVerdicts vdS, tags.mapM fromHex with
     | some (ty, []), some (cfgV, []), some evs, some vds, some tagBs =>
       let cfg := mkCfg cfgV
